@@ -140,9 +140,15 @@ def iteration(cfg, crate, rep):
     rep.ob("C20.iter", "%s|iter" % cfg, ok, "iter() walks `order` of the same name", found=v.r())
     nxt = [k for k in crate.bodies if k.startswith("<DistinguishedNameIterator") and k.endswith("::next")]
     if nxt:
-        v = core(Interp(crate).run_fn(nxt[0])["value"])
+        I2 = Interp(crate)
+        vv = I2.run_fn(nxt[0])["value"]
+        v = core(vv)
         txt = v.r()
-        ok = "HashMap::get(self.distinguished_name.entries" in txt and "next(self.iter)" in txt and isinstance(v, CallV) and v.callee.endswith("Option::and_then")
+        gets = [(c, a) for c, a, n_, cnd, f in I2.calls if c.endswith("HashMap::get")]
+        nexts = [(c, a) for c, a, n_, cnd, f in I2.calls if c.endswith("::next") and places(a[0]) == {"self.iter"}]
+        ok = len(gets) == 1 and core(gets[0][1][0]).r() == "self.distinguished_name.entries" and places(gets[0][1][1]) == {"self.iter"} \
+            and any(x.endswith("::next") for x in calls_of(gets[0][1][1])) and len(nexts) == 1 \
+            and places(vv) == {"self.iter", "self.distinguished_name.entries"}
         rep.ob("C20.iter", "%s|next" % cfg, ok, "next() takes the next key of `order` and looks its value up in `entries` of the same name", found=txt[:200])
     else:
         rep.fail("C20.iter", "%s|next" % cfg, "iterator impl not found")
